@@ -123,16 +123,20 @@ func (b *builder) build(s []Comparable, effort int) *Node {
 
 func (b *builder) selectVantage(s []Comparable, effort int) Comparable {
 	if effort <= 1 {
-		return s[b.intn(len(s))]
+		// Move the vantage point to the front for partition.
+		i := b.intn(len(s))
+		s[0], s[i] = s[i], s[0]
+		return s[0]
 	}
 	if effort > len(s) {
 		effort = len(s)
 	}
 	var best Comparable
+	bestIdx := 0
 	bestVar := -1.0
 	b.work = b.work[:effort]
 	choices := b.random(effort, s)
-	for _, p := range choices {
+	for j, p := range choices {
 		for i, q := range choices {
 			d := p.Distance(q)
 			if math.IsInf(d, 0) {
@@ -143,12 +147,15 @@ func (b *builder) selectVantage(s []Comparable, effort int) Comparable {
 		variance := stat.Variance(b.work, nil)
 		if variance > bestVar {
 			best, bestVar = p, variance
+			bestIdx = j
 		}
 	}
 	if best == nil {
 		// This should never be reached.
 		panic("vptree: could not find vantage point")
 	}
+	// Move the vantage point to the front for partition.
+	s[0], s[bestIdx] = s[bestIdx], s[0]
 	return best
 }
 
@@ -169,7 +176,9 @@ func (b *builder) partition(v Comparable, s []Comparable) (radius float64, close
 		}
 		b.work[i] = d
 	}
-	sort.Sort(byDist{dists: b.work, points: s})
+	// The vantage point itself is s[0] (at distance zero): sort only the
+	// rest so that it, and not a coincident element, is removed below.
+	sort.Sort(byDist{dists: b.work[1:], points: s[1:]})
 
 	// Note that this does not conform exactly to the description
 	// in the paper which specifies d(p, s) < mu for L; in cases
